@@ -517,6 +517,9 @@ int SimulateMsp430::put_data(
     return 0;
   }
 
+  // The constant generator as an indexed destination has no address.
+  if (ea == -1) { return 0; }
+
   if (bw == BW_WORD)
   {
     ram_write16(ea, data);
